@@ -49,6 +49,9 @@ class Objective:
             # large constant plus a tiny bowl: neighbouring values differ by ~1e-8 relative (tolerance-based
             # comparisons such as isclose() cannot tell them apart, exact ones can)
             return 1000.0 + 1e-4 * float(np.sum(u * u))
+        if f == "infwall":
+            # an infeasibility penalty: the worst possible value on part of the box (sign-aware through `sign`)
+            return float("inf") if u[0] > 0.2 else float(np.sum(u * u))
         if f == "nanhole":
             # undefined (NaN) on part of the box - only used where a property's domain includes such objectives (C19)
             return float("nan") if u[0] < -0.1 else float(np.sum(u * u))
@@ -114,7 +117,7 @@ S_SEED = st.integers(0, 2**31 - 1)
 S_DIM = st.sampled_from([2, 2, 2, 3, 3, 4, 5])
 S_SCALE = st.sampled_from([1e-3, 0.3, 1.0, 1.0, 40.0, 1e6])
 S_WIDTH = st.sampled_from([0.5, 1.0, 1.0, 1.7, 4.0])
-S_OFFSET = st.sampled_from([-0.5, -0.5, -1.0, 0.0, 0.37, -0.1, 1000.0])
+S_OFFSET = st.sampled_from([-0.5, -0.5, -1.0, 0.0, 0.37, -0.1, 1000.0, 1e6])  # 1e6: box [1e6 w, (1e6+1) w] - all genomes agree to 1e-6 relative
 S_LITBOX = st.sampled_from(LITERAL_BOXES)
 S_POP = st.integers(4, 12)
 S_GENS = st.sampled_from([1, 1, 2, 2, 3])
@@ -352,7 +355,10 @@ def scenarios(draw, prof: dict | None = None):
     sc["options"] = {"random_seed": draw(S_SEED), "hibernation": (draw(S_BOOL) if hp is None else (draw(st.integers(0, 9)) < hp * 10))}
     sc["cutoff"] = draw(st.integers(1, max(2, 6 * approx)))
     sc["precision_eps"] = draw(st.sampled_from([1e-9, 1e-3, 0.05, 0.5]))
+    if prof.get("second_run"):
+        sc["second_run_seed"] = draw(st.one_of(st.none(), S_SEED, S_SEED))
     if prof.get("observe_intermittently"):
+        sc["gsc_reads_best"] = draw(st.sampled_from([False, False, True]))
         sc["observe_every"] = draw(st.sampled_from([1, 1, 2, 3]))
         sc["observe_offset"] = draw(st.integers(0, 2))
     if prof.get("extra") is not None:
